@@ -16,7 +16,9 @@ RULE = (
     "0..2 observed equation parameters given per row), optional per-sample parameter batch; networks whose output depends on the inputs and, through an "
     "output transform, on equation parameters (so row alignment is observable). Oracle: numpy loops written from the "
     "statement. Non-trivial = IC mismatch non-zero; u varies by >10% over the normalisation samples (mean of squares "
-    "!= square of mean); observed parameter rows pairwise distinct and the network output sensitive to them."
+    "!= square of mean); observed parameter rows pairwise distinct and the network output sensitive to them. "
+    "Sub-check large_batches: the same oracle with 33..2050 batch rows / observation rows (size classes around and beyond "
+    "the block sizes 128 / 1024 of chunked evaluation), coordinates from a seeded lattice."
 )
 ASSUMPTIONS = ["tolerance 1e-9*(1+scale) in x64",
                "normalisation combined with a per-sample parameter batch is outside the domain (DESIGN 2.5)"]
@@ -79,10 +81,29 @@ def strat():
     return s()
 
 
+def strat_big():
+    from hypothesis import strategies as st
+
+    @st.composite
+    def s(draw):
+        first = draw(st.sampled_from(["ic", "norm", "obs"]))
+        kinds = ("statio", "nonstatio") if first == "norm" else ("ode", "statio", "nonstatio")
+        spec = draw(single_spec(kinds=kinds, want=(first,), maybe=("ic", "norm", "obs", "eq"), param_batch="no" if first == "norm" else "maybe",
+                                obs_params=True, slice_solution=True, big="always",
+                                transform=draw(st.sampled_from(["scale", "affine", "none"]))))
+        return {"spec": spec}
+
+    return s()
+
+
 def subchecks():
     return [
         SubCheck(name="ic_norm_obs_vs_reference", mode="given", strategy=strat, run_case=run_case,
                  counts={"quick": 200, "thorough": 4000}, shards={"quick": 8, "thorough": 16}, clear_every=60,
                  min_nontrivial_frac=0.3,
                  doc="initial-condition / normalisation / observation terms vs numpy loops written from the statement"),
+        SubCheck(name="large_batches", mode="given", strategy=strat_big, run_case=run_case,
+                 counts={"quick": 36, "thorough": 600}, shards={"quick": 12, "thorough": 16}, clear_every=6,
+                 min_nontrivial_frac=0.3,
+                 doc="the same oracle on batches / tables of 33..2050 rows and up to 130 normalisation samples"),
     ]
